@@ -18,6 +18,7 @@ CONSTANTS
   WSMiner <- WSM
   WSNumber <- WSN
   WSWeight <- WSW
+  DeepForks = FALSE
   Profiles <- ProfQ
 VIEW view
 INVARIANTS TypeOK ShareRewardedAtMostOncePerChain RewardAmountIsFormula CreditExactlyAtUnlock CreditAmountExact ClaimOnlyOwnerAfterUnlockOnce ClaimAmountIsAccumulated
